@@ -263,29 +263,12 @@ impl<L: Language, N: Analysis<L>> EGraph<L, N> {
                     assert_eq!(pc1.target_id(), pc2.target_id());
                 }
 
-                #[allow(unused)]
                 let (a, b, proof) = self.pc_congruence(&pc1, &pc2);
 
-                // or is it the opposite direction? (flip a with b)
-                let perm = a.m.compose(&b.m.inverse());
-
-                let proven_perm = ProvenPerm {
-                    elem: perm,
-
-                    #[cfg(feature = "explanations")]
-                    proof,
-
-                    #[cfg(feature = "explanations")]
-                    reg: self.proof_registry.clone(),
-                };
-
-                if CHECKS {
-                    proven_perm.check();
-                }
-                let grp = &mut self.classes.get_mut(&i).unwrap().group;
-                if grp.add(proven_perm) {
-                    self.touched_class(i, PendingType::Full);
-                }
+                // `a` and `b` are invocations of the same class. In general they do not have the same slots:
+                // a child symmetry can move a slot that is redundant here onto one that is not.
+                // union_internal shrinks in that case, and adds the permutation otherwise.
+                self.union_internal(&a, &b, proof);
             }
         }
     }
